@@ -6,9 +6,14 @@ import framework as fw
 from rng import Rng
 from sx import parse, show, hx, unhx, tag
 from schemas import gen_case_schema, schema_text
+import copy
+import json
+import schematext
+import sj
 
 PROP = 'C12'
-THEOREMS = ['C12_rabin_is_crc64', 'C12_digest_little_endian', 'C12_hello_world', 'C12_empty', 'C12_spec_int']
+THEOREMS = ['C12_rabin_is_crc64', 'C12_digest_little_endian', 'C12_hello_world', 'C12_empty', 'C12_spec_int',
+            'C12_pcf_leaves', 'C12_pcf_logical_refuted', 'C12_pcf_order_refuted', 'C12_pcf_examples']
 RULE = ('byte strings: empty, 1 byte, all 256 single bytes, structured and PRNG strings up to 64 KiB for the '
         'Rabin digest; generated schemas for fingerprint::<Rabin|Md5|Sha256> = digest(canonical form) and the '
         'single-object header; repeated in-process for determinism. non-trivial = distinct inputs of >= 2 bytes')
@@ -98,6 +103,147 @@ def evaluate(run, lines, meta, exe, drv):
                 run.nontrivial_case('f' + x)
                 run.sample({'schema': x[:120], 'pcf': pcf.decode('utf-8', 'replace')[:120], 'rabin': o[2]}, limit=9)
 
+RESERVED = ('name', 'type', 'fields', 'symbols', 'items', 'values', 'size', 'logicalType', 'order', 'doc', 'aliases', 'default',
+            'precision', 'scale')
+STRUCT = {'record': ('type', 'name', 'namespace', 'doc', 'aliases', 'fields'), 'enum': ('type', 'name', 'namespace', 'doc', 'aliases', 'symbols', 'default'),
+          'fixed': ('type', 'name', 'namespace', 'doc', 'aliases', 'size', 'logicalType', 'precision', 'scale'), 'array': ('type', 'items'),
+          'map': ('type', 'values')}
+
+def reserved_attr(js, field=False):
+    """does some node carry a custom attribute whose key is in the canonical form's ordering table?"""
+    if isinstance(js, list):
+        return any(reserved_attr(x) for x in js)
+    if not isinstance(js, dict):
+        return False
+    if field:
+        own = ('name', 'type', 'doc', 'default', 'aliases')
+        return any(k in RESERVED and k not in own for k in js) or reserved_attr(js.get('type'))
+    t = js.get('type')
+    if isinstance(t, (dict, list)):
+        return reserved_attr(t)
+    own = STRUCT.get(t, ('type', 'logicalType', 'precision', 'scale'))
+    if js.get('logicalType') != 'decimal':
+        own = tuple(k for k in own if k not in ('precision', 'scale'))
+    if any(k in RESERVED and k not in own for k in js):
+        return True
+    if t == 'record':
+        return any(reserved_attr(f, field=True) for f in js.get('fields', []) if isinstance(f, dict))
+    return reserved_attr(js.get('items')) or reserved_attr(js.get('values'))
+
+def irrelevant_edit(r, js):
+    """edits the specification calls irrelevant: docs, aliases, defaults removed, custom attributes (with keys outside the
+    canonical form's table), the namespace spelled inside the name"""
+    js = copy.deepcopy(js)
+    def walk(x, field=False):
+        if isinstance(x, list):
+            for y in x:
+                walk(y)
+            return
+        if not isinstance(x, dict):
+            return
+        if r.chance(1, 2):
+            x.pop('doc', None)
+        elif r.chance(1, 2) and (field or x.get('type') in ('record', 'enum', 'fixed')):
+            x['doc'] = 'edited doc'
+        if r.chance(1, 2):
+            x.pop('aliases', None)
+        if field and r.chance(1, 2):
+            x.pop('default', None)
+        if r.chance(1, 3) and (field or isinstance(x.get('type'), str)) and x.get('type') in ('record', 'enum', 'fixed', 'array', 'map') or (field and r.chance(1, 3)):
+            x['zz_extra'] = r.choice([1, 'a', None, [1]])
+        if not field and x.get('type') in ('record', 'enum', 'fixed') and isinstance(x.get('namespace'), str) and x['namespace'] \
+           and '.' not in x.get('name', '.') and r.chance(1, 2):
+            x['name'] = x.pop('namespace') + '.' + x['name']
+        if field:
+            walk(x.get('type'))
+        else:
+            t = x.get('type')
+            if isinstance(t, (dict, list)):
+                walk(t)
+            for f in x.get('fields', []) if isinstance(x.get('fields'), list) else []:
+                walk(f, field=True)
+            walk(x.get('items'))
+            walk(x.get('values'))
+    walk(js)
+    return js
+
+def evaluate_pcf(run, tier, seed):
+    rng = Rng(seed + 7)
+    n = 400 if tier == 'quick' else 12000
+    texts, meta = {}, {}
+    corpus = ['{"type":"int","logicalType":"date"}',
+              '{"type":"record","name":"R","fields":[{"name":"a","type":"int","order":"descending"}]}',
+              '{"type":"bytes","logicalType":"decimal","precision":4,"scale":1}']
+    for i, t in enumerate(corpus):
+        texts['k%d_0' % i] = t
+        meta['k%d_0' % i] = json.loads(t)
+    for i in range(n):
+        r = rng.fork(i)
+        js = schematext.gen_schema_json(r, max_depth=r.choice([1, 2, 2, 3]), attrs=r.chance(1, 3))
+        texts['p%d_0' % i] = schematext.dumps(js, r)
+        meta['p%d_0' % i] = js
+        j2 = irrelevant_edit(r, js)
+        texts['p%d_1' % i] = schematext.dumps(j2, r)
+        meta['p%d_1' % i] = j2
+    obs = sj.run_impl('schema-rt', texts)
+    acc = {cid: o for cid, o in obs.items() if tag(o) == 'obs' and len(o) >= 7}
+    model = sj.run_model(['%s (schema-json %s)' % (cid, show(o[1])) for cid, o in acc.items()])
+    # the canonical forms themselves, parsed and canonicalised again
+    again_texts = {cid: unhx(o[4]).decode('utf-8', 'replace') for cid, o in acc.items() if isinstance(o[4], str)}
+    again = sj.run_impl('schema-rt', again_texts)
+    for cid, o in acc.items():
+        run.evaluations += 1
+        case = {'kind': 'canonical-form', 'text': texts[cid]}
+        if not isinstance(o[4], str):
+            run.fail('pcf-' + str(tag(o[4])), 'canonical_form: %s' % show(o[4]), case)
+            continue
+        pcf = unhx(o[4]).decode('utf-8', 'replace')
+        m = model.get(cid)
+        if m is None or tag(m) != 'ok':
+            run.disagree('schema-json', case, 'obs', show(m)[:80] if m is not None else 'none')
+            continue
+        mp = unhx(m[3][1]).decode('utf-8', 'replace') if tag(m[3]) == 'ok' else None
+        spec = unhx(m[4]).decode('utf-8', 'replace')
+        run.count('model-pcf:' + str(tag(m[3])))
+        faithful = mp is None or mp == pcf
+        if mp is not None and mp != pcf:
+            run.disagree('canonical-form', case, pcf[:300], mp[:300])
+        ok = True
+        if pcf != spec:
+            ok = False
+            cls = None
+            if faithful:
+                js = meta[cid]
+                if reserved_attr(js):
+                    cls = 'pcf-keeps-attribute-named-like-a-schema-key'
+                elif sj.has_logical(js):
+                    cls = 'pcf-logical-type-not-reduced'
+            run.fail(cls or 'pcf-differs-from-specification', 'canonical form %s, the rules give %s' % (pcf[:140], spec[:140]), case)
+        # irrelevant edits
+        if cid.endswith('_1'):
+            base = acc.get(cid[:-2] + '_0')
+            if base is not None and isinstance(base[4], str) and base[4] != o[4]:
+                ok = False
+                cls = 'pcf-keeps-attribute-named-like-a-schema-key' if faithful and (reserved_attr(meta[cid]) or reserved_attr(meta[cid[:-2] + '_0'])) else None
+                run.fail(cls or 'pcf-changed-by-irrelevant-edit', 'canonical form %s became %s' % (unhx(base[4]).decode('utf-8', 'replace')[:120], pcf[:120]), case)
+        # canonical form of the parsed canonical form
+        a = again.get(cid)
+        if a is not None and tag(a) == 'obs' and len(a) >= 7 and isinstance(a[4], str):
+            f19 = tag(o[3]) == 'ok' and show(o[3][1]) != show(o[1])
+            if a[4] != o[4] and f19 and faithful and pcf == spec:
+                ok = False
+                run.fail('embedded-schema-null-namespace', 'the canonical form %s names a null-namespace type inside a namespaced one; parsed again it is %s'
+                         % (pcf[:120], unhx(a[4]).decode('utf-8', 'replace')[:120]), case)
+            elif a[4] != o[4]:
+                ok = False
+                run.fail('pcf-not-idempotent' if not (faithful and pcf != spec) else 'pcf-keeps-attribute-named-like-a-schema-key' if reserved_attr(meta[cid]) else 'pcf-logical-type-not-reduced' if sj.has_logical(meta[cid]) else 'pcf-not-idempotent',
+                         'the canonical form of the parsed canonical form is %s, not %s' % (unhx(a[4]).decode('utf-8', 'replace')[:120], pcf[:120]), case)
+        elif a is not None and pcf == spec:
+            ok = False
+            run.fail('pcf-does-not-parse', 'the canonical form %s is not accepted by the parser (%s)' % (pcf[:140], show(a)[:40]), case)
+        if ok:
+            run.nontrivial_case('p' + texts[cid])
+
 def run(tier, seed):
     run_ = fw.Run(PROP, tier, seed)
     run_.proof = fw.proof_step(PROP, THEOREMS)
@@ -105,6 +251,7 @@ def run(tier, seed):
     drv = fw.build_ocaml()
     lines, meta = gen_cases(tier, seed)
     evaluate(run_, lines, meta, exe, drv)
+    evaluate_pcf(run_, tier, seed)
     return fw.finish(run_, 'theorem C12_rabin_is_crc64 (all byte strings) + differential correspondence', RULE, search)
 
 def search(run_):
@@ -118,3 +265,6 @@ def search(run_):
 def replay(rp):
     print(rp.get('failure'))
     return 0
+
+def explore(run_, tier, seed):
+    evaluate_pcf(run_, tier, seed)
